@@ -171,6 +171,10 @@ def grammar(tier, seed):
         assert len({n[0] for n in nms}) == len(nms), "G8 names must have distinct first characters"
         ds.append(Decl(f"G8 names: {tag}", [(n, i, str(i), None, []) for i, n in enumerate(nms)]))
         ds.append(Decl(f"G8 names: {tag}, with alternatives", [(n, i, str(i), None, ([7 - i] if i < 2 else [])) for i, n in enumerate(nms[:4])], bits=3, layout=len(tag) % 4))
+    # G9: no variant has code 0 (so an all-zero word is not a valid run of symbols), and a codec with gaps in its code space
+    ds.append(Decl("G9 no zero code (3 bits)", [("A", 1, "1", None, []), ("C", 2, "2", None, []), ("G", 3, "3", None, []), ("T", 4, "4", None, [])]))
+    ds.append(Decl("G9 no zero code (2 bits)", [("A", 1, "1", None, []), ("C", 2, "2", None, []), ("G", 3, "3", None, [])], bits=2))
+    ds.append(Decl("G9 no zero code (8 bits, letters)", [("A", 65, "b'A'", None, [97]), ("C", 67, "b'C'", None, []), ("N", 78, "b'N'", None, [])], bits=8))
     # G5: variant counts
     for n in [2, 3, 5, 16, 17, 32, 33, 40]:
         nm = names(n)
@@ -262,11 +266,50 @@ fn seq_laws<A: Codec>(tag: &str, maxlen: usize) {
     } }
     if !why.is_empty() { println!("FAIL {tag} :: {}", why[..why.len().min(4)].join("; ")); }
 }
+
+/// k-mers over a derived codec: text -> k-mer -> text, construction from slices, iteration, equality with text,
+/// conversion back to a sequence, in the word-sized and the 64/128-bit storages
+fn kmer_laws<A: Codec, const K: usize>(tag: &str) {
+    let al: Vec<A> = A::items().collect();
+    let m = al.len();
+    let mut why: Vec<String> = Vec::new();
+    let total = m.checked_pow(K as u32).filter(|t| *t <= 512);
+    let mut state = 99u64;
+    for rep in 0..total.unwrap_or(96) {
+        let v: Vec<A> = (0..K).map(|i| { state = state.wrapping_mul(6364136223846793005).wrapping_add(1442695040888963407); if total.is_some() { al[(rep / m.pow(i as u32)) % m] } else { al[(state >> 33) as usize % m] } }).collect();
+        let text: String = v.iter().map(|a| a.to_char()).collect();
+        let r = std::panic::catch_unwind(std::panic::AssertUnwindSafe(|| {
+            let mut w: Vec<String> = Vec::new();
+            let seq: Seq<A> = v.iter().copied().collect();
+            let k = match Kmer::<A, K>::from_str(&text) { Ok(k) => k, Err(e) => return vec![format!("Kmer::from_str({text:?}): {e:?}")] };
+            if k.to_string() != text { w.push(format!("display of {text:?} = {:?}", k.to_string())); }
+            if format!("{k}") != text { w.push(format!("format of {text:?}")); }
+            if !(k == text.as_str()) { w.push(format!("kmer != its text {text:?}")); }
+            match Kmer::<A, K>::try_from(&seq[..]) { Ok(k2) => { if k2 != k || k2.to_string() != text { w.push(format!("try_from(slice) differs for {text:?}")); } }, Err(e) => w.push(format!("try_from(slice {text:?}): {e:?}")) }
+            let back: Seq<A> = k.into();
+            if back != seq || back.to_string() != text { w.push(format!("Seq::from(kmer {text:?}) = {back}")); }
+            let k64 = Kmer::<A, K, u64>::from_str(&text).map(|k| k.to_string());
+            if k64.as_deref() != Ok(text.as_str()) { w.push(format!("Kmer<_,_,u64> {text:?} -> {k64:?}")); }
+            let k128 = Kmer::<A, K, u128>::from_str(&text).map(|k| k.to_string());
+            if k128.as_deref() != Ok(text.as_str()) { w.push(format!("Kmer<_,_,u128> {text:?} -> {k128:?}")); }
+            // iteration over a longer sequence: window i is symbols i..i+K
+            let mut long = seq.clone(); long.extend(v.iter().rev().copied()); long.push(al[0]);
+            let lt = long.to_string();
+            let got: Vec<String> = long.kmers::<K>().map(|k| k.to_string()).collect();
+            let want: Vec<String> = (0..=lt.len() - K).map(|i| lt[i..i + K].to_string()).collect();
+            if got != want { w.push(format!("kmers::<{K}>() of {lt:?} = {got:?}")); }
+            w
+        }));
+        match r { Ok(w) => why.extend(w), Err(_) => why.push(format!("a k-mer operation on {text:?} (K = {K}) panicked")) }
+        if why.len() > 8 { break; }
+    }
+    if !why.is_empty() { println!("FAIL {tag} :: {}", why[..why.len().min(4)].join("; ")); }
+}
 '''
 
 
 # G6: derived codecs of widths 1, 3, 5, 7, 8 that are run through the generic sequence laws
-LAWS_TAGS = {"G8 names: lower-case r-names", "G2 max=1 bits=1", "G5 variants=5", "G5 variants=17", "G2 max=127 bits=7", "G2 max=128 bits=8", "G5 variants=40 high discriminants"}
+LAWS_TAGS = {"G9 no zero code (3 bits)", "G9 no zero code (2 bits)", "G9 no zero code (8 bits, letters)", "G8 names: lower-case r-names", "G2 max=1 bits=1", "G5 variants=5", "G5 variants=17", "G2 max=127 bits=7", "G2 max=128 bits=8", "G5 variants=40 high discriminants"}
 
 
 def module_source(i, d):
@@ -307,6 +350,9 @@ def positive_programs(res, decls, root, env, release, tag, with_laws=True):
                 if d.tag in LAWS_TAGS:
                     ml = 2 * (64 // max(1, d.expected_bits())) + 2 if d.expected_bits() >= 3 else 70
                     src.append(f"    seq_laws::<d{i}::E>({progs.rust_str('laws ' + str(i))}, {min(ml, 24) if d.expected_bits() >= 3 else 70});")
+                    kmax = 64 // d.expected_bits()
+                    for k in sorted({1, 2, 3, max(1, kmax - 1), kmax}):
+                        src.append(f"    kmer_laws::<d{i}::E, {k}>({progs.rust_str('laws ' + str(i))});")
         src.append(f"    println!(\"DONE {len(ch)}\");")
         src.append("}")
         progs.write_bin(proj, f"q{b}", "\n".join(src) + "\n")
